@@ -553,7 +553,7 @@ pub fn run(case: &WatchCase, tag: u64) -> Outcome {
     // system-call seam are addressed relative to an operation)
     let _fs_record = cx::install_fs_hook(w.artifact_dir(), None);
     pico::verif_hooks::set_capacity_override(std::num::NonZeroUsize::new(case.capacity.max(1)));
-    for d in [0usize, 1, 2, 3, 6] {
+    for d in [0usize, 1, 2, 3, 6, 7] {
         let _ = std::fs::create_dir_all(w.abs(DIRS[d]));
     }
     for (p, s) in &case.initial {
@@ -728,7 +728,7 @@ pub fn generate(seed: u64) -> WatchCase {
             initial.push((*rng.pick(&[0usize, 1, 2, 4, 5, 6, 7, 8, 15, 16, 17]), *rng.pick(&[0usize, 2, 3, 4, 5, 6, 7, 12, 13, 11])));
         }
     }
-    let compile_ms: Vec<u16> = (0..3).map(|_| *rng.pick(&[0u16, 0, 5, 40, 150, 300])).collect();
+    let compile_ms: Vec<u16> = (0..3).map(|_| *rng.pick(&[0u16, 0, 5, 40, 150, 300, 300])).collect();
     // swarm: which op kinds are enabled in this run
     let mut w: [u32; 10] = [12, 4, 3, 2, 2, 2, 2, 1, 5, 2];
     for (i, x) in w.iter_mut().enumerate() {
@@ -747,7 +747,7 @@ pub fn generate(seed: u64) -> WatchCase {
     let mut steps = Vec::new();
     for _ in 0..n {
         let after_ms = *rng.pick(&[0u16, 1, 3, 10, 30, 60, 90, 120, 200, 400]);
-        let path = if non_source && rng.chance(1, 4) { if config_edits { *rng.pick(&[9usize, 10, 12, 13, 14]) } else { *rng.pick(&[9usize, 10, 11, 12, 13, 14, 18, 18]) } } else { *rng.pick(&[0usize, 1, 2, 3, 4, 5, 6, 7, 8, 15, 16, 17]) };
+        let path = if non_source && rng.chance(1, 4) { if config_edits { *rng.pick(&[9usize, 10, 12, 13, 14, 19]) } else { *rng.pick(&[9usize, 10, 11, 12, 13, 14, 18, 18, 19]) } } else { *rng.pick(&[0usize, 1, 2, 3, 4, 5, 6, 7, 8, 15, 16, 17]) };
         let step = match rng.weighted(&w) {
             0 if atomic_saves && rng.chance(1, 3) => WStep::Edit { op: EdOp::AtomicSave(path, crate::session::gen_snippet(&mut rng)), after_ms },
             0 => WStep::Edit { op: EdOp::Write(path, crate::session::gen_snippet(&mut rng)), after_ms },
@@ -773,7 +773,17 @@ pub fn generate(seed: u64) -> WatchCase {
             }
             _ => WStep::Settle,
         };
+        // an edit is often followed closely by a rename of the same file (save, then "rename
+        // symbol / move file"): the modification may not have been processed yet
+        let follow_up = match &step {
+            WStep::Edit { op: EdOp::Write(p, _), .. } if rng.chance(1, 5) => Some(WStep::Edit {
+                op: EdOp::Rename(*p, *rng.pick(&[0usize, 1, 2, 3, 4, 5, 6, 7, 8, 15, 16, 17])),
+                after_ms: *rng.pick(&[0u16, 10, 60, 120, 150, 200, 400]),
+            }),
+            _ => None,
+        };
         steps.push(step);
+        steps.extend(follow_up);
     }
     WatchCase { capacity, initial, compile_ms, steps }
 }
